@@ -201,6 +201,23 @@ class Scenario:
         return d
 
 
+def exhaustion_step(model, area, dt, tol=1e-9):
+    """index of the first state in which one component is all but exhausted (fraction below `tol`, or the step before
+    removes the whole inventory of a component) - may equal the number of reported steps (the models look one step ahead).
+    From there on rounding decides: the fraction of the vanishing component comes out as +-1e-100 and the range check of
+    Composition fires for one labelling / basis and not for the other.  None when no component runs out."""
+    area, dt = float(area), float(dt)
+    for k in range(len(model.time)):
+        w, m = float(model.feed_compositions[k].p), float(model.feed_mass[k])
+        if min(w, 1 - w) < tol:
+            return k
+        j = model.partial_fluxes[k]
+        for i, frac in ((0, w), (1, 1 - w)):
+            if float(j[i]) * area * dt >= frac * m * (1 - tol):
+                return k + 1
+    return None
+
+
 PLOTS = {"calls": 0, "failed": 0}
 
 
